@@ -647,11 +647,19 @@ def run(tier="quick", seed=0, coq_dir=HERE, case_dir=None, per_file=CASES_PER_FI
     by_id = {c["id"]: c for c in cases}
     seen_ids = set()
     codes = Counter()
+    # the fixed-index list and the found flag are read from two log messages of the function; when the current source words
+    # them differently (a harmless edit) those two fields cannot be extracted and are not compared (x_cp and c always are)
+    with open(inspect.getsourcefile(CM)) as fh:
+        src_text = fh.read()
+    log_ok = ("is fixed." in src_text) and ("GCP found in this segment" in src_text)
+    stats["log_based_fields_compared"] = log_ok
     for path, (rc, lines, err, _dt) in zip(files, results):
         if rc != 0:
             failures.append(dict(kind="coqc failed", file=path, rc=rc, stderr=err[-2000:]))
         for (i, code) in lines:
             seen_ids.add(i)
+            if not log_ok:
+                code &= 3
             codes[code] += 1
             if code:
                 stats["disagreements"] += 1
